@@ -12,8 +12,10 @@ import (
 	"fmt"
 	"net/netip"
 	"os"
+	"runtime"
 	"strconv"
 	"strings"
+	"syscall"
 
 	"github.com/scionproto/scion/pkg/addr"
 	"github.com/scionproto/scion/pkg/segment/iface"
@@ -72,7 +74,9 @@ const lazyName = "udpip-lazy-verif"
 func init() {
 	router.AddUnderlay(lazyName, func(b, r, s int) router.UnderlayProvider {
 		p := udpip.VerifNewProvider(b, r, s)
-		p.SetConnOpener(lazyOpener)
+		if !lazyDefault {
+			p.SetConnOpener(lazyOpener)
+		}
 		return p
 	})
 }
@@ -90,7 +94,7 @@ type link struct {
 type plumbCase struct {
 	Rcv, Snd, Batch int
 	Reuse           bool
-	Driver          int // 0 = control.ConfigDataplane on a topology, 1 = Connector calls
+	Driver          int  // 0 = control.ConfigDataplane on a topology, 1 = Connector calls
 	V6              bool // all underlay addresses on the IPv6 loopback
 	Links           []link
 }
@@ -230,10 +234,96 @@ type result struct {
 	err  string
 }
 
-func runPlumb(c plumbCase, real bool) (res result) {
+// udpSock is a UDP socket of this process found by scanning its file descriptors.
+type udpSock struct {
+	Peer     netip.AddrPort // invalid: not connected
+	Rcv, Snd int
+}
+
+// openSockets maps the descriptors of this process that are sockets to their inode ("socket:[n]");
+// inodes, unlike descriptor numbers, are not reused while the scan's own descriptor comes and goes.
+func openSockets() map[int]string {
+	out := map[int]string{}
+	ents, _ := os.ReadDir("/proc/self/fd")
+	for _, e := range ents {
+		n, err := strconv.Atoi(e.Name())
+		if err != nil {
+			continue
+		}
+		if l, err := os.Readlink("/proc/self/fd/" + e.Name()); err == nil && strings.HasPrefix(l, "socket:") {
+			out[n] = l
+		}
+	}
+	return out
+}
+
+// newUDPSockets returns the UDP sockets opened since before was taken, with the buffer sizes the
+// kernel reports for them (read-only getsockopt on the raw descriptors).
+func newUDPSockets(before map[int]string) ([]udpSock, error) {
+	old := map[string]bool{}
+	for _, ino := range before {
+		old[ino] = true
+	}
+	var out []udpSock
+	for fd, ino := range openSockets() {
+		if old[ino] {
+			continue
+		}
+		if t, err := syscall.GetsockoptInt(fd, syscall.SOL_SOCKET, syscall.SO_TYPE); err != nil ||
+			t != syscall.SOCK_DGRAM {
+			continue
+		}
+		sa, err := syscall.Getsockname(fd)
+		if err != nil {
+			continue
+		}
+		switch sa.(type) {
+		case *syscall.SockaddrInet4, *syscall.SockaddrInet6:
+		default:
+			continue
+		}
+		var u udpSock
+		if pa, err := syscall.Getpeername(fd); err == nil {
+			switch a := pa.(type) {
+			case *syscall.SockaddrInet4:
+				u.Peer = netip.AddrPortFrom(netip.AddrFrom4(a.Addr), uint16(a.Port))
+			case *syscall.SockaddrInet6:
+				u.Peer = netip.AddrPortFrom(netip.AddrFrom16(a.Addr), uint16(a.Port))
+			}
+		}
+		if u.Rcv, err = syscall.GetsockoptInt(fd, syscall.SOL_SOCKET, syscall.SO_RCVBUF); err != nil {
+			return nil, err
+		}
+		if u.Snd, err = syscall.GetsockoptInt(fd, syscall.SOL_SOCKET, syscall.SO_SNDBUF); err != nil {
+			return nil, err
+		}
+		out = append(out, u)
+	}
+	return out, nil
+}
+
+// lazyDefault: the lazily instantiated provider keeps the default opener too.
+var lazyDefault bool
+
+// runPlumb modes: mock opener; recording opener that opens real sockets through conn.New;
+// DEFAULT opener of the udpip provider (uo.Open -> conn.New), sockets found by descriptor scan.
+const (
+	modeMock = iota
+	modeReal
+	modeDefault
+)
+
+func runPlumb(c plumbCase, mode int) (res result) {
+	real := mode == modeReal
 	main := &recOpener{reuse: c.Reuse, real: real}
 	lazy := &recOpener{reuse: c.Reuse, real: real}
 	lazyOpener = lazy
+	lazyDefault = mode == modeDefault
+	var before map[int]string
+	if mode == modeDefault {
+		runtime.GC() // let finalizers close the sockets of earlier cases
+		before = openSockets()
+	}
 	defer func() {
 		for _, o := range append(main.opens, lazy.opens...) {
 			if o.Real != nil {
@@ -244,7 +334,10 @@ func runPlumb(c plumbCase, real bool) (res result) {
 	rcfg := config.RouterConfig{ReceiveBufferSize: c.Rcv, SendBufferSize: c.Snd, BatchSize: c.Batch,
 		NumProcessors: 1, NumSlowPathProcessors: 1, BFD: config.BFD{Disable: true}}
 	cn := router.NewConnector(rcfg, env.Features{})
-	cn.VerifCfgSetConnOpener(main)
+	if mode != modeDefault {
+		cn.VerifCfgSetConnOpener(main)
+	}
+	defer runtime.KeepAlive(cn)
 	remoteOf := map[netip.AddrPort]int{} // remote underlay address -> link index
 	switch c.Driver {
 	case 0:
@@ -298,6 +391,28 @@ func runPlumb(c plumbCase, real bool) (res result) {
 	}
 	res.obs = make([]*[2]int, len(c.Links))
 	res.bufs = make([]*[2]int, len(c.Links))
+	if mode == modeDefault {
+		socks, err := newUDPSockets(before)
+		if err != nil {
+			return result{err: "getsockopt on scanned descriptor: " + err.Error()}
+		}
+		for _, u := range socks {
+			idx := 0
+			if u.Peer.IsValid() {
+				var ok bool
+				if idx, ok = remoteOf[netip.AddrPortFrom(u.Peer.Addr().Unmap(), u.Peer.Port())]; !ok {
+					if idx, ok = remoteOf[u.Peer]; !ok {
+						return result{err: "unexpected socket connected to " + u.Peer.String()}
+					}
+				}
+			}
+			if res.bufs[idx] != nil {
+				return result{err: "two sockets for one link"}
+			}
+			res.bufs[idx] = &[2]int{u.Rcv, u.Snd}
+		}
+		return res
+	}
 	for _, o := range append(main.opens, lazy.opens...) {
 		idx := 0
 		if o.Remote.IsValid() {
@@ -414,8 +529,10 @@ func main() {
 		"(0/0, equal, distinct, swapped) and random sizes; observable = conn.Config of every Open. " +
 		"chain: the same with real IPv4 and IPv6 loopback sockets (conn.New), SO_RCVBUF/SO_SNDBUF of every socket " +
 		"read back; sizes zero, inside and above net.core.rmem_max/wmem_max, each direction independently. " +
-		"sock: conn.New alone (IPv4/IPv6, connected or not), same sizes. " +
-		"non-trivial = receive != send (a swap is visible) and at least one socket observed"
+		"chain-default: the same through the provider's DEFAULT opener (uo.Open -> conn.New), sockets found by " +
+		"scanning the process's descriptors. sock: conn.New alone (IPv4/IPv6, connected or not), same sizes. " +
+		"non-trivial = a swap of the two sizes is visible in the observable (plumb: receive != send; real sockets: " +
+		"the pair the kernel would report differs under the swapped assignment) and at least one socket observed"
 	rng := vgen.NewRand(run.Seed)
 	id := 0 // id of the case being generated (every generated case consumes exactly one id)
 
@@ -436,7 +553,7 @@ func main() {
 			continue
 		}
 		var res result
-		if p, msg := vgen.Recover(func() { res = runPlumb(c, false) }); p {
+		if p, msg := vgen.Recover(func() { res = runPlumb(c, modeMock) }); p {
 			res.err = "panic: " + msg
 		}
 		if res.err != "" {
@@ -506,60 +623,82 @@ func main() {
 		return def
 	}
 
-	// the whole chain with real sockets
-	nc := run.Count(30, 1000)
-	for i := 0; i < nc; i, id = i+1, id+1 {
-		r := rng.Fork(uint64(2000000 + i))
-		c := genPlumb(r, 1<<30)
-		c.Rcv, c.Snd = pick(r, rmax), pick(r, wmax)
-		c.V6 = i%2 == 1
-		if i < 2*len(over) {
-			c.Rcv, c.Snd = over[i/2][0], over[i/2][1]
+	// what the kernel reports for a requested size, and whether a swap of the two sizes would
+	// show in the reported pair (it does not when both exceed equal limits, for instance)
+	rep := func(x, def, max int) int {
+		if x == 0 {
+			return def
 		}
-		if c.V6 && derr6 != nil {
-			c.V6 = false
-			if run.Want() {
-				run.Tally("chain:ipv6-unavailable-ran-ipv4")
-			}
+		if x > max {
+			x = max
 		}
-		c.setRemotes()
-		if !run.Want() {
-			run.Skip()
-			continue
-		}
-		if derr != nil {
-			run.Tally("chain:unavailable")
-			run.Skip()
-			continue
-		}
-		var res result
-		if p, msg := vgen.Recover(func() { res = runPlumb(c, true) }); p {
-			res.err = "panic: " + msg
-		}
-		if res.err != "" {
-			run.Violate(id, "configuring the data plane (real sockets) failed: "+res.err, c)
-			run.Skip()
-			continue
-		}
-		ml, lt := linkTerms(c)
-		bufs := alignWithModel(c, res.bufs)
-		var ot []uint64
-		n := 0
-		for j := range ml {
-			ot = obsFlat(ot, bufs[j])
-			if bufs[j] != nil {
-				n++
-			}
-		}
-		run.Tally(fmt.Sprintf("chain:v6=%v", c.V6))
-		run.Tally(fmt.Sprintf("chain:over-limit rcv=%v snd=%v", c.Rcv > rmax, c.Snd > wmax))
-		term := vgen.App("SockCfg.CChain", vgen.N(uint64(c.Rcv)), vgen.N(uint64(c.Snd)),
-			vgen.N(uint64(c.Batch)), vgen.B(c.Reuse), lt,
-			vgen.N(uint64(defOf(c.V6).Rcv)), vgen.N(uint64(rmax)),
-			vgen.N(uint64(defOf(c.V6).Snd)), vgen.N(uint64(wmax)), vgen.NList(ot))
-		run.Add("chain", term, fmt.Sprint(c), c.Rcv != c.Snd && n > 0,
-			map[string]any{"case": c, "default": defOf(c.V6), "rmem_max": rmax, "wmem_max": wmax, "impl": bufs})
+		return 2 * x
 	}
+	swapVisible := func(rcv, snd int, d sockObs) bool {
+		return rep(rcv, d.Rcv, rmax) != rep(snd, d.Rcv, rmax) || rep(snd, d.Snd, wmax) != rep(rcv, d.Snd, wmax)
+	}
+
+	// the whole chain with real sockets: through a recording opener that calls conn.New, and
+	// (kind chain-default, generated last) through the DEFAULT opener of the udpip provider
+	chain := func(kind string, nc int, fork uint64, mode int) {
+		for i := 0; i < nc; i, id = i+1, id+1 {
+			r := rng.Fork(fork + uint64(i))
+			c := genPlumb(r, 1<<30)
+			if mode == modeDefault {
+				c.Reuse = true // conn.UDPCanReuseLocal() on Linux
+			}
+			c.Rcv, c.Snd = pick(r, rmax), pick(r, wmax)
+			c.V6 = i%2 == 1
+			if i < 2*len(over) {
+				c.Rcv, c.Snd = over[i/2][0], over[i/2][1]
+			}
+			if c.V6 && derr6 != nil {
+				c.V6 = false
+				if run.Want() {
+					run.Tally("chain:ipv6-unavailable-ran-ipv4")
+				}
+			}
+			c.setRemotes()
+			if !run.Want() {
+				run.Skip()
+				continue
+			}
+			if derr != nil {
+				run.Tally("chain:unavailable")
+				run.Skip()
+				continue
+			}
+			var res result
+			if p, msg := vgen.Recover(func() { res = runPlumb(c, mode) }); p {
+				res.err = "panic: " + msg
+			}
+			if res.err != "" {
+				run.Violate(id, "configuring the data plane (real sockets) failed: "+res.err, c)
+				run.Skip()
+				continue
+			}
+			ml, lt := linkTerms(c)
+			bufs := alignWithModel(c, res.bufs)
+			var ot []uint64
+			n := 0
+			for j := range ml {
+				ot = obsFlat(ot, bufs[j])
+				if bufs[j] != nil {
+					n++
+				}
+			}
+			run.Tally(fmt.Sprintf("%s:v6=%v", kind, c.V6))
+			run.Tally(fmt.Sprintf("%s:over-limit rcv=%v snd=%v", kind, c.Rcv > rmax, c.Snd > wmax))
+			run.Tally(fmt.Sprintf("%s:swap-visible=%v", kind, swapVisible(c.Rcv, c.Snd, defOf(c.V6))))
+			term := vgen.App("SockCfg.CChain", vgen.N(uint64(c.Rcv)), vgen.N(uint64(c.Snd)),
+				vgen.N(uint64(c.Batch)), vgen.B(c.Reuse), lt,
+				vgen.N(uint64(defOf(c.V6).Rcv)), vgen.N(uint64(rmax)),
+				vgen.N(uint64(defOf(c.V6).Snd)), vgen.N(uint64(wmax)), vgen.NList(ot))
+			run.Add(kind, term, fmt.Sprint(c), swapVisible(c.Rcv, c.Snd, defOf(c.V6)) && n > 0,
+				map[string]any{"case": c, "default": defOf(c.V6), "rmem_max": rmax, "wmem_max": wmax, "impl": bufs})
+		}
+	}
+	chain("chain", run.Count(30, 1000), 2000000, modeReal)
 
 	// conn.New alone
 	ns := run.Count(40, 2000)
@@ -599,9 +738,11 @@ func main() {
 		term := vgen.App("SockCfg.CSock", vgen.N(uint64(rcv)), vgen.N(uint64(snd)),
 			vgen.N(uint64(defOf(v6).Rcv)), vgen.N(uint64(rmax)), vgen.N(uint64(defOf(v6).Snd)),
 			vgen.N(uint64(wmax)), vgen.N(uint64(o.Rcv)), vgen.N(uint64(o.Snd)))
-		run.Add("sock", term, fmt.Sprint(rcv, snd, connected, v6), rcv != snd,
+		run.Tally(fmt.Sprintf("sock:swap-visible=%v", swapVisible(rcv, snd, defOf(v6))))
+		run.Add("sock", term, fmt.Sprint(rcv, snd, connected, v6), swapVisible(rcv, snd, defOf(v6)),
 			map[string]any{"rcv": rcv, "snd": snd, "connected": connected, "v6": v6, "default": defOf(v6),
 				"rmem_max": rmax, "wmem_max": wmax, "impl": o})
 	}
+	chain("chain-default", run.Count(16, 200), 3000000, modeDefault)
 	run.Finish()
 }
